@@ -175,6 +175,8 @@ impl<T> Queue<T> {
         unsafe {
             let node = Node::new(Some(t));
             let prev = self.head.swap(node, Ordering::AcqRel);
+            #[cfg(may_verif)]
+            crate::verif::point("prev.write", node as usize, prev as usize as u64);
             (*node).prev = prev;
             // read the consumer position before linking: once linked, `prev` can be
             // consumed and freed, and a new stub at the same address would look like an empty list
